@@ -252,7 +252,18 @@ def sim_part(ctx, d):
     maxterm = maxcommit = 0
     samples = []
     viol = None
-    for bi, (first, count, nev) in enumerate(batches):
+    # run in chunks so that the trace files stay small; a chunk's traces are deleted once validated
+    chunks = []
+    for first, count, nev in batches:
+        step = max(1, 800000 // nev)
+        k = first
+        while k < first + count:
+            c = min(step, first + count - k)
+            chunks.append((k, c, nev))
+            k += c
+    for bi, (first, count, nev) in enumerate(chunks):
+        if viol is not None:
+            break
         b = d / ("sim%d" % bi)
         b.mkdir()
         rc, out = lib.sh("%s sim . %d %d %d %d" % (lib.BUILD / HARNESS, ctx.seed, first, count, nev), cwd=b, timeout=3000)
@@ -292,6 +303,11 @@ def sim_part(ctx, d):
                             trace_tail=trace.splitlines()[-12:],
                             theorem="C15_check_step_sound: an accepted step is a step of the model's transition relation; this step is NOT one (or the implementation panicked / broke a safety predicate)",
                             note="events: C campaign, P propose, T tick, R restart, D/DD deliver (dup), FP forwarded proposal, X* = crash before persisting; messages/states are in the model's numbering (index = real index - 1); replay with ./check C15 --replay <this file>")
+        if viol is None:
+            try:
+                (b / "traces.txt").unlink()
+            except OSError:
+                pass
     stats = dict(sim_schedules=tot_sched, sim_events=tot_events, sim_distinct_nontrivial=nontriv,
                  sim_distinct=len(hashes), sim_elections=agg["elections"], sim_commit_advances=agg["commits"],
                  sim_log_truncations=agg["truncs"], sim_restarts=agg["restarts"], sim_max_term=maxterm,
